@@ -3,7 +3,7 @@ SPEC = {
     "level": "proof",
     "lean_modules": ["PallasVerif.Props.C01"],
     "required_theorems": ["flat_roundtrip", "flat_roundtrip_from", "enc_appends", "dec_reads", "enc_total", "encode_decode_top", "list_roundtrip_generic", "enc_wire_format", "blk_roundtrip", "unzigzag_zigzag"],
-    "streams": [{"name": "flat", "quick": 500, "thorough": 60000}],
+    "streams": [{"name": "flat", "quick": 1000, "thorough": 60000}],
     "rule": "a case encodes 0..64 mixed values (bool, u8, bits n, word, int, char, bytes 0..1000, utf8, bool list, char string) with one "
             "Encoder after a prefix of 0..7 booleans, terminates with the filler, decodes with the same sequence of Decoder calls and "
             "checks pos = len, used_bits = 0 (1 in 10 cases is free-form incl. ill-formed `bits` for the model tie only); distinct = sha1 "
